@@ -49,6 +49,20 @@ Proof.
   unfold events_of. rewrite changed_idle_frame. reflexivity.
 Qed.
 
+(* every step the scheduler can still take (client resumptions, server reads - no new requests or
+   changes) strictly decreases a measure or changes nothing; at measure 0 the client idles, the
+   server waits in idle and nothing is in flight: the session always returns to idle, so
+   notifications keep flowing *)
+Theorem c05_returns_to_idle : forall reply_fn n s s',
+  Inv reply_fn s -> iruns reply_fn n s s' ->
+  (forall l, internal l = true -> astep reply_fn s' l = s') ->
+  a_pt s' = PIdle /\ a_queue s' = [] /\ a_c2s s' = [] /\ a_s2c s' = [] /\ a_idle s' = true /\ a_pending s' = [].
+Proof. exact maximal_run_is_quiescent. Qed.
+
+Theorem c05_runs_are_bounded : forall reply_fn n s s',
+  Inv reply_fn s -> iruns reply_fn n s s' -> (n + mu_sys s' <= mu_sys s)%nat /\ Inv reply_fn s'.
+Proof. exact internal_runs_bounded. Qed.
+
 (* non-vacuity: the noidle race (the server answers idle while the client cancels it) is a
    reachable schedule; the request still gets the reply to its own bytes *)
 Example c05_race :
@@ -65,3 +79,5 @@ Print Assumptions c05_one_outstanding.
 Print Assumptions c05_invariant.
 Print Assumptions c05_writes.
 Print Assumptions c05_reidle_after_event.
+Print Assumptions c05_returns_to_idle.
+Print Assumptions c05_runs_are_bounded.
